@@ -13,6 +13,13 @@ TRUSTED = [
 ]
 
 
+# which kinds of C10 failure a recorded finding class stands for (other kinds on the same target are NOT absorbed)
+ABSORBS = {
+    "written-definition-compares-unequal": {"flag-true-bytes-same", "print-modified-bytes-same", "again1"},
+    "found-definition-not-replaced": set(),
+}
+
+
 def _present(old, name):
     if old is None:
         return False
@@ -33,18 +40,23 @@ def classify(res):
     reqs, keys = [], []
     for k in scn["targets"]:
         fname = res["paths"][k]
+        kd = L.kind_of(k)
         c0 = next((c for c in (per_run[0] if per_run else []) if c["file"].endswith("/" + fname)), None)
         c1 = next((c for c in (per_run[1] if len(per_run) > 1 else []) if c["file"].endswith("/" + fname)), None)
         if c0 is None:
             continue
-        name = scn["names"][k]
+        name = scn["names"][kd]
+        whole = bool(c0["found"] and not c0["cmp"] and c0["replaced"]) or bool(c1 and c1["found"] and not c1["cmp"] and c1["replaced"])
         reqs.append(dumps([Sym("sync_class"), "." in name, obs_of(c0, name), opt(obs_of(c1, name) if c1 else None)]))
+        reqs.append(dumps([Sym("frame_class"), True, whole, "." in name, obs_of(c0, name), opt(obs_of(c1, name) if c1 else None)]))
         keys.append(k)
     out = {}
     if reqs:
-        for k, o in zip(keys, run_model(reqs)):
-            e = loads(o)
+        outs = run_model(reqs)
+        for idx, k in enumerate(keys):
+            e, e2 = loads(outs[2 * idx]), loads(outs[2 * idx + 1])
             out[k] = None if e == "none" else unhx(e[1])
+            out[(k, "module-docstring-only")] = None if e2 == "none" else unhx(e2[1])
     return out
 
 
@@ -74,7 +86,7 @@ def evaluate(rng, tier, judge, n_quick=70, n_thorough=1200, runs=3, cli_share=0.
         hist["via:%s" % via] += 1
         hist["given:%d" % len(scn["given"])] += 1
         for k, t in scn["targets"].items():
-            hist["target:%s:%s%s" % (k, t["pre"], ":method" if k == "function" and "." in scn["names"][k] else "")] += 1
+            hist["target:%s:%s%s" % (k, t["pre"], ":method" if L.kind_of(k) == "function" and "." in scn["names"]["function"] else "")] += 1
         if len(samples) < 6:
             samples.append({"scenario": scn})
         fails = judge(res)
@@ -84,12 +96,16 @@ def evaluate(rng, tier, judge, n_quick=70, n_thorough=1200, runs=3, cli_share=0.
             k = f["facts"]["kind"]
             if not truth_found:
                 cls = "truth-definition-not-found"
+            elif f.get("kind") == "module-docstring-only" and (k, "module-docstring-only") in classes:
+                cls = classes[(k, "module-docstring-only")]
             elif k in classes:
                 cls = classes[k]
             elif f["target"] == "*" or k is None:
-                cls = next((c for c in classes.values() if c), None)
+                cls = next((c for kk, c in classes.items() if c and not isinstance(kk, tuple)), None)
             else:
                 cls = None
+            if cls in ABSORBS and f.get("kind") is not None and f["kind"] not in ABSORBS[cls]:
+                cls = None      # a different way to fail than the recorded finding: not absorbed by it
             hist["fail:%s" % (cls or "UNCLASSIFIED")] += 1
             failures.append({"case": {"scenario": scn, "target": f["target"]}, "what": f["what"], "class": cls})
     return {"evaluations": n, "distinct_nontrivial": len(seen),
